@@ -46,10 +46,13 @@ def kO():
 VALUES = {"kS": "text ü", "kB": b"\x00\xffraw", "kN": None, "kO": {"k": [1, 2.5, "ü"]}}
 
 
-def conf(commit: str, max_ops: int, gen: bool) -> str:
+def conf(commit: str, max_ops: int, gen: bool, commits=(), keys=None, paths=None) -> str:
+    """commit: commit type of the first store handle; commits: the types a later set_store may switch to"""
+    keys = list(keys or KEYS)
     return "\n".join(["---- MODULE DbfsConf ----", "EXTENDS TLC",
-                      "Commit == %s" % tlax(commit), "Keys == %s" % tlax(set(KEYS)), "KindOf == %s" % tlax(dict(KEYS)),
-                      "Paths == %s" % tlax(set(PATHS)), "MaxOps == %d" % max_ops, "GenMode == %s" % tlax(gen), "====", ""])
+                      "Commit == %s" % tlax(commit), "Commits == %s" % (tlax(set(commits)) if commits else "{}"),
+                      "Keys == %s" % tlax(set(keys)), "KindOf == %s" % tlax({k: KEYS[k] for k in keys}),
+                      "Paths == %s" % tlax(set(paths or PATHS)), "MaxOps == %d" % max_ops, "GenMode == %s" % tlax(gen), "====", ""])
 
 
 def _raw_bytes(k: str) -> bytes:
@@ -84,9 +87,13 @@ def _client(args) -> Dict[str, Any]:
         sig[k] = dict([o for o in ops if o[0] == "sync"][-1][1])["/sigprobe"]
     fake_root = os.path.join(base, "dbfs")
     out: List[Dict[str, Any]] = []
-    try:
+    nconf = [0]
+
+    def configure(spelling: str) -> None:
         dds.set_store("dbfs", internal_dir="dbfs:/int", data_dir="dbfs:/data", dbutils=FakeDBUtils(fake_root),
-                      commit_type=commit_spelling)
+                      commit_type=spelling)
+    try:
+        configure(commit_spelling)
     except BaseException as e:
         return {"setup_error": "%s: %s" % (type(e).__name__, str(e)[:160]), "answers": []}
 
@@ -124,6 +131,12 @@ def _client(args) -> Dict[str, Any]:
                 except Exception as e:
                     # the fake raises a plain Exception (as the JVM bridge does) when the record is absent
                     a = {"executed": False, "value": ["missing"] if "FileNotFound" in str(e) else ["EXC", type(e).__name__, str(e)[:120]]}
+            elif op["op"] == "config":
+                # a new store handle over the same directories, another commit type (documented spellings in turn)
+                sp = COMMITS[op["k"]]
+                nconf[0] += 1
+                configure(sp[nconf[0] % len(sp)])
+                a = {"executed": False, "value": ["ok"]}
             elif op["op"] == "plant":
                 k = op["k"]
                 legacy = {"str": "dbfs.string", "bytes": "dbfs.bytes", "pickle": "dbfs.pickle"}[KEYS[k]]
@@ -181,6 +194,26 @@ def run_c19(tier: str) -> int:
     states = trans = 0
     base = common.sub_scratch("dbfs")
     tasks = []
+    # the mixed family: the store is configured again with another commit type over the same directories
+    dm = common.stage_spec({"DbfsConf.tla": conf("links_only", 1000000, False, commits=list(COMMITS), keys=["kS", "kO"], paths=["/t/s", "/.h"])}, "dbfs_d_mixed")
+    rm = common.run_tlc(dm, "StoreDbfs.tla", "StoreDbfs_design.cfg", timeout=900)
+    common.tlc_must_pass(rm, "StoreDbfs design (reconfigured commit types)")
+    states += rm.distinct
+    trans += rm.generated
+    for c0 in COMMITS:
+        dg = common.stage_spec({"DbfsConf.tla": conf(c0, 3, True, commits=list(COMMITS), keys=["kS", "kO"], paths=["/t/s", "/.h"])}, "dbfs_gm_" + c0)
+        rg = common.run_tlc(dg, "StoreDbfs.tla", "StoreDbfs_gen.cfg", workers=1, timeout=600)
+        common.tlc_must_pass(rg, "StoreDbfs generation (mixed)")
+        hm = [h for h in rg.printed("HIST") if any(o["op"] == "config" for o in h)]
+        ds = common.stage_spec({"DbfsConf.tla": conf(c0, 8, True, commits=list(COMMITS))}, "dbfs_sm_" + c0)
+        rs = common.run_tlc(ds, "StoreDbfs.tla", "StoreDbfs_gen.cfg", workers=1, timeout=600,
+                            extra=["-simulate", "num=%d" % (80 if tier == "quick" else 2000), "-depth", "9", "-seed", str(common.seed() + 19)])
+        if rs.rc != 0:
+            raise MachineryError("StoreDbfs simulation (mixed) failed:\n" + rs.tail(20))
+        hm += [h for h in rs.printed("HIST") if any(o["op"] == "config" for o in h)]
+        for (i, h) in enumerate(hm):
+            sp = COMMITS[c0]
+            tasks.append((len(tasks), c0, sp[i % len(sp)], h, base))
     for (commit, spellings) in COMMITS.items():
         d = common.stage_spec({"DbfsConf.tla": conf(commit, 1000000, False)}, "dbfs_d_" + commit)
         r = common.run_tlc(d, "StoreDbfs.tla", "StoreDbfs_design.cfg", timeout=600)
@@ -208,7 +241,9 @@ def run_c19(tier: str) -> int:
     n = 0
     nontriv = set()
     for (t, out) in zip(tasks, outs):
-        (_, commit, spelling, h, _) = t
+        (_, commit0, spelling, h, _) = t
+        commit = commit0
+        mixed = any(o["op"] == "config" for o in h)
         if out["fatal"]:
             raise MachineryError("C19 replay: %s" % out["fatal"])
         n += 1
@@ -217,20 +252,24 @@ def run_c19(tier: str) -> int:
                           {"commit_type": spelling, "error": out["setup_error"]})
             continue
         if any(o["op"] == "plant" for o in h) or any(o["op"] == "load" for o in h):
-            nontriv.add((commit, json.dumps([[o["op"], o["q"], o["k"]] for o in h])))
+            nontriv.add((commit0, json.dumps([[o["op"], o["q"], o["k"]] for o in h])))
         copies: Dict[str, Optional[str]] = {q: None for q in PATHS}
         records: Dict[str, Optional[str]] = {q: None for q in PATHS}
         for (j, (o, a)) in enumerate(zip(h, out["answers"])):
             exp = o["ans"]
+            if o["op"] == "config":
+                commit = o["k"]
+            cfgs = [commit0] + [x["k"] for x in h[: j + 1] if x["op"] == "config"]
+            ctag = commit + ("|after-reconfiguration:" + ">".join(cfgs[-2:]) if len(cfgs) > 1 else "")
             legacy = "legacy" if any(x["op"] == "plant" and x["k"] == (o["k"] or "") for x in h[:j]) else "current"
             kind = KEYS.get(o["k"], "") if o["k"] else ""
             if a["value"] != exp["value"]:
                 got = a["value"][0] if a["value"][0] != "EXC" else "EXC:" + a["value"][1]
-                rep.violation("C19|%s|%s|expected=%s|got=%s|%s,%s" % (commit, o["op"], exp["value"][0], got, legacy, kind),
+                rep.violation("C19|%s|%s|expected=%s|got=%s|%s,%s" % (ctag, o["op"], exp["value"][0], got, legacy, kind),
                               {"commit_type": spelling, "ops": h[: j + 1], "expected": exp, "observed": {k: a[k] for k in ("executed", "value")}})
                 break
             if o["op"] == "keep" and a["executed"] != exp["executed"]:
-                rep.violation("C19|%s|keep-executed=%s-expected=%s|%s,%s" % (commit, a["executed"], exp["executed"], legacy, kind),
+                rep.violation("C19|%s|keep-executed=%s-expected=%s|%s,%s" % (ctag, a["executed"], exp["executed"], legacy, kind),
                               {"commit_type": spelling, "ops": h[: j + 1]})
                 break
             if o["op"] == "keep":
@@ -248,7 +287,7 @@ def run_c19(tier: str) -> int:
                 elif f["record"] != exp_rec:
                     bad = "redirect-record|%s" % ("missing" if f["record"] is None else ("unexpected" if exp_rec is None else "wrong-key"))
                 if bad:
-                    rep.violation("C19|%s|%s" % (commit, bad), {"commit_type": spelling, "ops": h[: j + 1], "path": q, "files": f})
+                    rep.violation("C19|%s|%s" % (ctag, bad), {"commit_type": spelling, "ops": h[: j + 1], "path": q, "files": f})
                     break
             if bad:
                 break
